@@ -12,3 +12,11 @@ Print Assumptions C07_every_call.
 Theorem C07_holds : forall c : scase, wf_case c -> chk_C07_kv (c, srun c) = true.
 Proof. exact (chk_kv_sound chk_row_C07 C07_row_sound). Qed.
 Print Assumptions C07_holds.
+
+(* ... and the frame in full: a key-value call - an xattr-only write in particular - leaves every document but the
+   addressed one, in its own collection and in every other (the same key too), exactly as it was: body, CAS, expiry,
+   every xattr, revision, what a dump says of it.  The checker of C07 includes this rule. *)
+From Rosmar Require Import KvFrame KvTrace.
+Theorem C07_frame_in_full : forall c : scase, wf_case c -> chk_C07_full (c, srun c) = true.
+Proof. exact C07_full_sound. Qed.
+Print Assumptions C07_frame_in_full.
